@@ -17,7 +17,7 @@ def confirm(src, pid, x):
     readme = open(os.path.join(src, 'README.md')).read()
     m = re.search(r'(go/[\w/\-.]*_test\.go)', readme)
     dest = m.group(1)
-    m = re.search(r"-run[ =]+['\"]?([^\s'\"]+)", readme)
+    m = re.search(r"(?<!\w)-run[ =]+['\"]?([^\s'\"]+)", readme)
     run = m.group(1)
     wt = tempfile.mkdtemp(prefix='seedwt-', dir=os.environ.get('TMPDIR', '/tmp'))
     os.rmdir(wt)
